@@ -10,12 +10,12 @@ TIE = ("hand-written model (FcpptModel/Model/C12.lean: libstdc++ istream state m
 RULE = ("exh K A|B L PREFIX: digest over all texts of length L over {a,\\n,space,tab} with that prefix of a fixed history "
         "(A: read through saving every position, probe end of input, rewind to every saved position; B: every ordered pair of "
         "rewinds and every rewind from the end-of-input state), each observation = value + eof/fail/bad bits; exhaustive for "
-        "L <= 8 (quick) / 12 (thorough) with A, L <= 6 / 8 with B, for char and wchar_t. seqs K TEXT FA M: digest over ALL op "
+        "L <= 9 (quick) / 12 (thorough) with A, L <= 7 / 8 with B, for char and wchar_t. seqs K TEXT FA M: digest over ALL op "
         "sequences of length <= M over {get, pos, set j (j < #pos so far)} on TEXT (all texts of length <= 4 with M=6 quick; "
         "<= 5 with M=7 and <= 3 with M=8 thorough), also with the failure-injecting buffer (FA = read budget). History batches: "
         "seeded long histories on random texts up to length 300 (newline-heavy, all byte values / wide code points), with "
         "parser calls, failing streams and fabricated positions. perr: literal/char_set/char_ and the skippers after every "
-        "prefix of every text of length <= 3 (4 quick: <=3) — only the Line l:c numbers of the message are compared. "
+        "prefix of every text of length <= 3 (thorough: 4) — only the Line l:c numbers of the message are compared. "
         "weight(exh) = number of texts, weight(seqs) = number of sequences; an op is non-trivial unless it is reset/open.")
 ASSUMPTIONS = [
     "std::basic_istream<Ch> get/tellg/seekg/clear/sentry and basic_stringbuf seekoff/seekpos behave as modelled in IStream "
@@ -89,7 +89,31 @@ def refine(op):
         return [f"walk {t[1]} {t[2]} {txt(pre + s)}" for s in all_texts(int(t[3]) - len(pre))]
     if t[0] == "seqs":
         return [f"hist {t[1]} {t[2]} {t[3]} {','.join(s) if s else '-'}" for s in all_seqs(int(t[4]))]
+    if t[0] == "walk":
+        n = 0 if t[3] == "-" else len(t[3].split(","))
+        return [f"hist {t[1]} {t[3]} - {','.join(script_ops(t[2], n))}"]
+    if t[0] == "hist" and t[4] != "-":
+        # shortest failing prefix first
+        o = t[4].split(",")
+        return [f"hist {t[1]} {t[2]} {t[3]} {','.join(o[:k])}" for k in range(1, len(o))]
     return None
+
+
+def script_ops(sc, n):
+    """the fixed histories of Drv.scriptA / scriptB (used only to localise a differing digest)"""
+    o = ["p"] + ["g", "p"] * n
+    if sc == "A":
+        o += ["g", "g", "p", "g"]
+        for k in range(n + 1):
+            o += [f"s{n - k}", "g", "p", "g"]
+        o += ["s0", f"s{n}", "g", f"s{n // 2}", "p", "g", f"s{n + 1}", "p"]
+    else:
+        for a in range(n + 1):
+            for b in range(n + 1):
+                o += [f"s{a}", "g", f"s{b}", "p", "g"]
+        for b in range(n + 1):
+            o += [f"s{n}", "g", f"s{b}", "g", "p"]
+    return o
 
 
 # ------------------------------------------------------------------ generators
@@ -219,7 +243,7 @@ def perr_ops(kind, maxlen, fa_list):
 def batches(rng, tier):
     thorough = tier == "thorough"
     # 1. exhaustive texts, fixed histories
-    la = range(0, 13) if thorough else range(0, 11)
+    la = range(0, 13) if thorough else range(0, 10)
     lb = range(0, 9) if thorough else range(0, 8)
     for kind in ("c", "w"):
         yield Batch(f"exh-A-{kind}", exh_ops(kind, "A", la), exhaustive=True,
@@ -249,6 +273,17 @@ def batches(rng, tier):
         ops = perr_ops(kind, 4 if thorough else 3, ["-"]) + perr_ops(kind, 2, ["0", "1"])
         yield Batch(f"perr-{kind}", ops, exhaustive=True,
                     note="parsers/skippers at every index of every small text: success, EOF, Expected with Line l:c, failing stream")
+    # 3b. characters that a truncating or sign-confused newline test would mistake for '\n' (and the extremes of the types)
+    ops = []
+    for c in [0x10A, 0x100A, 0x0A0A, 0x1000A, 0x8A, 0x2028, 0x85, 0x10FFFF, 0xFFFF, 0xFF, 0x0D, 0x0]:
+        for t in ([c], [c, 97], [97, c, 10, c]):
+            ops.append(f"hist w {txt(t)} - g,p,g,p,g,p,s1,g,p,s0,p")
+            ops.append(f"perr w {txt(t)} - g lit 97")
+    for c in [0x8A, 0xFF, 0x0D, 0x0, 0x0B, 0x0C, 0x7F, 0x80]:
+        for t in ([c], [c, 97], [97, c, 10, c]):
+            ops.append(f"hist c {txt(t)} - g,p,g,p,g,p,s1,g,p,s0,p")
+            ops.append(f"perr c {txt(t)} - g lit 97")
+    yield Batch("special-chars", ops, note="newline look-alikes (low byte 0x0A in a wide character, CR, NEL, U+2028), 0, 0xFF, U+10FFFF")
     # 4. seeded long histories
     r = rng.fork("hist")
     ncase = 4000 if thorough else 800
@@ -275,7 +310,7 @@ MANIFEST = {
                    "(rewind_exact, rewind_exact_hist); end of input and a bad stream never yield a character (eof_never_char, "
                    "bad_never_char, failing_read_never_char, parse_bad_fails); literal/char_set errors carry the location after "
                    "the offending character (expected_location). Tied to the code by a differential correspondence that is "
-                   "exhaustive over all texts up to length 12 over {a,\\n,space,tab} (thorough; 8 quick) and over all op sequences "
+                   "exhaustive over all texts up to length 12 over {a,\\n,space,tab} (thorough; 9 quick) and over all op sequences "
                    "up to length 7/8 on small texts, for char and wchar_t, plus seeded long histories."),
     "level_note": ("Trusted: Lean kernel + propext/Quot.sound; the istream sub-model is an assumption about libstdc++ validated by "
                    "comparing rdstate() after every operation; fidelity of the hand-written model outside the exercised inputs; the "
